@@ -2273,7 +2273,26 @@ def class_constants(ctx, cls):
             if isinstance(v.func, ast.Name) and v.func.id in mod_funcs:
                 return True
         return False
+    # a constant may be built from constants defined above it in the class body (or at module level):
+    # _junction_fmt = 'J ' + ' ' * 12 + _current_fmt  -  the names are written out first
+    mconsts = module_constants(cls.module) if getattr(cls, 'module', None) is not None else {}
+    known = {}
+    body2 = []
     for st in body:
+        if isinstance(st, ast.Assign) and len(st.targets) == 1 and isinstance(st.targets[0], ast.Name):
+            v2 = copy_replace(st.value, lambda n_: (known.get(n_.id) if n_.id in known else mconsts.get(n_.id))
+                              if isinstance(n_, ast.Name) and isinstance(n_.ctx, ast.Load) and
+                              (n_.id in known or n_.id in mconsts) else None)
+            st2 = ast.Assign(targets=st.targets, value=v2)
+            ast.copy_location(st2, st)
+            if constexpr(v2) or literal(v2):
+                known[st.targets[0].id] = v2
+            else:
+                known.pop(st.targets[0].id, None)
+            body2.append(st2)
+        else:
+            body2.append(st)
+    for st in body2:
         if isinstance(st, ast.Assign) and len(st.targets) == 1 and isinstance(st.targets[0], ast.Name):
             counts[st.targets[0].id] = counts.get(st.targets[0].id, 0) + 1
             if (isinstance(st.value, ast.Tuple) and literal(st.value)) or \
@@ -2506,6 +2525,11 @@ def line_exprs(path, with_iter=False):
                    isinstance(x.func.value, ast.Constant) and isinstance(x.func.value.value, str) and '\n' not in x.func.value.value:
                     inner.add(id(x))
         joins = [n for n in joins if id(n) not in inner]
+        # a value assembled by joins that put no line break in (' '.join((title, row))) is one line itself
+        if joins and all(isinstance(n.func.value, ast.Constant) and isinstance(n.func.value.value, str) and
+                         '\n' not in n.func.value.value and n.func.value.value != '' for n in joins) and \
+           not any(isinstance(n.args[0], ast.List) and any(getattr(x, '_appended', False) for x in n.args[0].elts) for n in joins):
+            joins = []
         for n in joins:
             a0 = n.args[0]
             if isinstance(a0, ast.List):
@@ -2607,6 +2631,15 @@ def row_values(e):
         if l_ is not None or r_ is not None:
             return (l_ or []) + (r_ or [])
     if isinstance(e, ast.Call) and isinstance(e.func, ast.Attribute) and e.func.attr == 'join' and len(e.args) == 1:
+        if isinstance(e.args[0], (ast.Tuple, ast.List)) and any(
+                isinstance(x, ast.JoinedStr) or (isinstance(x, ast.BinOp) and isinstance(x.op, ast.Mod))
+                for x in e.args[0].elts):
+            # pieces of one line, some of them formatted themselves: the values of those pieces (literal pieces are text)
+            vals = []
+            for x in e.args[0].elts:
+                sub = row_values(x) if not isinstance(x, ast.Constant) else []
+                vals += sub if sub is not None else [x]
+            return vals
         return written_values(e.args[0])
     if isinstance(e, ast.JoinedStr):
         return [v.value for v in e.values if isinstance(v, ast.FormattedValue)]
